@@ -56,7 +56,8 @@ unsigned int irc_ntop(char *output, unsigned int out_size, const irc_inaddr *add
                 max_start = ii - curr_zeros;
                 max_zeros = curr_zeros;
                 curr_zeros = 0;
-            }
+            } else
+                curr_zeros = 0;
         }
         if (curr_zeros > max_zeros) {
             max_start = ii - curr_zeros;
